@@ -3,16 +3,10 @@ import TaRs.Lemmas.Core.ExponentialMovingAverage
 import TaRs.Gen.ExponentialMovingAverage
 import TaRs.Lemmas.RsLemmas
 import TaRs.Lemmas.Total.ExponentialMovingAverage
+import TaRs.Lemmas.Bar.ExponentialMovingAverage
 namespace TaRs.Gen.ExponentialMovingAverage
 open TaRs TaRs.Rs
 variable {F : Type} [Scalar F]
-
-/-- wiring of the bar path: WHICH field of the bar `next(&bar)` reads (a value-level fact, hence
-    here and not among the value-agnostic totality lemmas) -/
-theorem nextBar_eq (s : ExponentialMovingAverage F) (b : Bar F) : s.nextBar b = s.next b.close := by
-  unfold nextBar
-  try simp only [gen_helper]
-  cases h : s.next b.close <;> simp [h]
 
 /-- the documented recursion, in the code's operation order -/
 def step (s : ExponentialMovingAverage F) (x : F) : ExponentialMovingAverage F :=
